@@ -52,6 +52,29 @@ instance : LawfulMonad M := LawfulMonad.mk'
     (M.emit e >>= f) c = ⟨(f () c).res, (f () c).conn, e :: (f () c).eff⟩ := by
   rw [M.bind_ok (M.emit_apply e c)]; simp
 
+@[simp] theorem M.liftE_ok_bind_apply {α β} (a : α) (f : α → M β) (c : Conn) :
+    ((M.liftE (.ok a) : M α) >>= f) c = f a c := by
+  rw [M.bind_ok (M.liftE_apply (.ok a) c)]; simp
+@[simp] theorem M.liftE_error_bind_apply {α β} (ex : Exc) (f : α → M β) (c : Conn) :
+    ((M.liftE (.error ex) : M α) >>= f) c = ⟨.error ex, c, []⟩ := by
+  rw [M.bind_err (M.liftE_apply (.error ex) c)]
+theorem M.int_some_bind_apply {β} {s : String} {n : Int} (h : pyInt s = some n) (f : Int → M β) (c : Conn) :
+    (M.int s >>= f) c = f n c := by
+  have : M.int s c = ⟨.ok n, c, []⟩ := by rw [M.int_apply, h]
+  rw [M.bind_ok this]; simp
+theorem M.int_none_bind_apply {β} {s : String} (h : pyInt s = none) (f : Int → M β) (c : Conn) :
+    (M.int s >>= f) c = ⟨.error .value, c, []⟩ := by
+  have : M.int s c = ⟨.error .value, c, []⟩ := by rw [M.int_apply, h]
+  rw [M.bind_err this]
+@[simp] theorem M.assert_true_bind_apply {β} (f : Unit → M β) (c : Conn) :
+    (M.assert true >>= f) c = f () c := by
+  have : M.assert true c = ⟨.ok (), c, []⟩ := rfl
+  rw [M.bind_ok this]; simp
+@[simp] theorem M.assert_false_bind_apply {β} (f : Unit → M β) (c : Conn) :
+    (M.assert false >>= f) c = ⟨.error .assertion, c, []⟩ := by
+  have : M.assert false c = ⟨.error .assertion, c, []⟩ := rfl
+  rw [M.bind_err this]
+
 theorem M.ite_bind {α β} (b : Prop) [Decidable b] (x y : M α) (f : α → M β) :
     ((if b then x else y) >>= f) = if b then x >>= f else y >>= f := by
   split <;> rfl
